@@ -1,1 +1,185 @@
-/-! Property theorems for C12 (none yet). -/
+import MirVerif.Lemmas.ReduceRoundtrip
+import MirVerif.Lemmas.ReduceFast
+/-!
+# Property C12 — the binary-MIR compression layer is lossless and never trusts a damaged stream
+
+All theorems are about `Model/Reduce.lean` (the code of `mir-reduce.h` after fix f40fd264), for an
+arbitrary configuration `c` with `0 < bufLen < 2^28`, an arbitrary check hash `c.H` and an arbitrary
+dictionary hash; `mirCfg` (the real constants and `mir_hash_strict`) is an instance
+(`mirCfg_ok`).  What is *not* proved here and is decided by the correspondence check instead:
+that the compiled C functions compute the same as the model (byte-identical encoder output, same
+`(ok, bytes)` of the decoder on arbitrary streams), and nothing is claimed about collisions of the
+64-bit hash (`accepted_hash` says exactly what an accepted stream must satisfy).
+-/
+namespace MirVerif.Reduce
+
+theorem mirCfg_ok : mirCfg.Ok := ⟨by decide, by decide⟩
+
+/-- `_reduce_uint_write` / `_reduce_uint_read` round trip, for every value the format can carry -/
+theorem uint_roundtrip (u : Nat) (tl : List UInt8) (h : u < 2 ^ 28) :
+    uintRead (uintWrite u ++ tl) = some (u, tl) :=
+  uintRead_uintWrite u tl h
+
+example : uintRead (uintWrite 70000 ++ [1, 2]) = some (70000, [1, 2]) := by decide
+
+/-- `decode_of_valid_parse`: *any* valid parse of a buffer `d` (not only the one the encoder
+chooses), serialised and followed by the trailer, decodes to `d` -/
+theorem decode_of_valid_parse (c : Cfg) (hc : c.Ok) (es : List El) (d : List UInt8)
+    (hv : ValidParse c es d) (hlen : d.length ≤ c.bufLen) :
+    decode c (dataPrefix ++ (serEls es ++ 0 :: leBytes 8 (chainHash c checkHashSeed d).toNat))
+      = .ok d := by
+  have hdrop : (dataPrefix ++ (serEls es ++ 0 :: leBytes 8 (chainHash c checkHashSeed d).toNat)).drop 3
+      = serEls es ++ 0 :: leBytes 8 (chainHash c checkHashSeed d).toNat := rfl
+  have htake : (dataPrefix ++ (serEls es ++ 0 :: leBytes 8 (chainHash c checkHashSeed d).toNat)).take 3
+      = dataPrefix := rfl
+  have hp := hc.pos
+  have ⟨h1, h2⟩ := decChunks_of_valid_parse c hc es d hv hlen checkHashSeed []
+    (0 :: leBytes 8 (chainHash c checkHashSeed d).toNat)
+  unfold decode
+  rw [hdrop, htake]
+  by_cases hfull : d.length = c.bufLen
+  · have hd0 : d.length ≠ 0 := by omega
+    rw [h1 hfull, decChunks_trailer, chainHash_short c hc _ d hlen, if_pos hd0]
+    simp [DSt.init, leVal_leBytes_u64]
+  · rw [h2 (by omega)]
+    simp
+
+/-- `encode_valid`: the elements the modelled `_reduce_encode_buf` writes for a buffer are a valid
+parse of that buffer — for every buffer content, whatever the dictionary walk visits (the proof
+uses only that every allocated dictionary element holds a pair the decoder can resolve and that
+chain links lead to allocated elements; it does not depend on hash values, fuel or chain order) -/
+theorem encode_valid (c : Cfg) (buf : Array UInt8) (hsz : buf.size ≤ c.bufLen) :
+    ValidParse c (encodeBufEls c buf) buf.toList :=
+  encodeBuf_validParse c buf hsz
+
+/-- a valid parse containing a back-reference (non-vacuity of `ValidParse`) -/
+theorem validParse_witness : ValidParse mirCfg [⟨[1, 2, 3, 4], some (4, 4)⟩] [1, 2, 3, 4, 1, 2, 3, 4] := by
+  refine ⟨by decide, ?_⟩
+  intro e he
+  simp only [List.mem_singleton] at he
+  subst he
+  exact ⟨by decide, Or.inr (by simp), fun len off h => by
+    simp only [Option.some.injEq, Prod.mk.injEq] at h
+    obtain ⟨rfl, rfl⟩ := h
+    decide⟩
+
+/-- `decode_of_valid_parse` applied to the witness: a hand-written stream with a back-reference -/
+example : decode mirCfg (dataPrefix ++ (serEls [⟨[1, 2, 3, 4], some (4, 4)⟩] ++
+      0 :: leBytes 8 (chainHash mirCfg checkHashSeed [1, 2, 3, 4, 1, 2, 3, 4]).toNat))
+    = .ok [1, 2, 3, 4, 1, 2, 3, 4] :=
+  decode_of_valid_parse mirCfg mirCfg_ok _ _ validParse_witness (by decide)
+
+/-- **Round trip**: decoding the encoder's output returns exactly the input, for every byte
+string of every length (any number of buffers) -/
+theorem roundtrip (c : Cfg) (hc : c.Ok) (d : List UInt8) : decode c (encode c d) = .ok d := by
+  unfold decode encode
+  have hdrop : (dataPrefix ++ encChunks c checkHashSeed d).drop 3 = encChunks c checkHashSeed d := rfl
+  have htake : (dataPrefix ++ encChunks c checkHashSeed d).take 3 = dataPrefix := rfl
+  rw [hdrop, htake, decChunks_encChunks c hc d.length d (Nat.le_refl _)]
+  simp
+
+/-- the instance for the real header -/
+theorem roundtrip_mir (d : List UInt8) : decode mirCfg (encode mirCfg d) = .ok d :=
+  roundtrip mirCfg mirCfg_ok d
+
+/-- **Prefix-freeness**: no accepted stream is a proper prefix of another accepted stream, so every
+truncation and every extension of an accepted stream (in particular of an encoder output) is
+rejected -/
+theorem prefix_free (c : Cfg) (s t d d' : List UInt8) (h1 : decode c s = .ok d)
+    (h2 : decode c (s ++ t) = .ok d') : t = [] := by
+  unfold decode at h1 h2
+  split at h1
+  · cases h1
+  · rename_i d0 hd0
+    split at h1
+    · rename_i hpre
+      split at h2
+      · cases h2
+      · rename_i d1 hd1
+        have h3 : 3 ≤ s.length := by
+          have := congrArg List.length hpre
+          simp only [List.length_take, dataPrefix, List.length_cons, List.length_nil] at this
+          omega
+        rw [List.drop_append_of_le_length h3] at hd1
+        exact decChunks_prefix_free c _ _ (Nat.le_refl _) _ _ _ t d0 d1 hd0 hd1
+    · cases h1
+
+/-- every proper extension of an encoder output is rejected -/
+theorem extension_rejected (c : Cfg) (hc : c.Ok) (d t d' : List UInt8) (ht : t ≠ []) :
+    decode c (encode c d ++ t) ≠ .ok d' :=
+  fun h => ht (prefix_free c _ t d d' (roundtrip c hc d) h)
+
+/-- every proper truncation of an encoder output is rejected -/
+theorem truncation_rejected (c : Cfg) (hc : c.Ok) (d s t d' : List UInt8) (hs : encode c d = s ++ t)
+    (ht : t ≠ []) : decode c s ≠ .ok d' := by
+  intro h
+  have h2 : decode c (s ++ t) = .ok d := by rw [← hs]; exact roundtrip c hc d
+  exact ht (prefix_free c s t d' d h h2)
+
+example : decode mirCfg (encode mirCfg [7, 7, 7, 7, 7, 7, 7, 7, 7] ++ [0]) ≠ .ok [7, 7, 7, 7, 7, 7, 7, 7, 7] :=
+  extension_rejected mirCfg mirCfg_ok _ _ _ (by simp)
+
+/-- **Hash binding**: an accepted stream starts with "MIR" and ends with tag 0 followed by the
+little-endian check hash of the *decoded* bytes (chained over the buffers exactly as the encoder
+does).  Hence a stream that decodes to data different from what was encoded can only be accepted if
+the 64-bit hash chain collides. -/
+theorem accepted_hash (c : Cfg) (hc : c.Ok) (s d : List UInt8) (h : decode c s = .ok d) :
+    ∃ body, s = dataPrefix ++ (body ++ 0 :: leBytes 8 (chainHash c checkHashSeed d).toNat) := by
+  unfold decode at h
+  split at h
+  · cases h
+  · rename_i d0 hd0
+    split at h
+    · rename_i hpre
+      cases h
+      obtain ⟨tail, body, h1, _, h3⟩ := decChunks_hash c hc _ _ (Nat.le_refl _) _ _ _ _
+        (DInv.init c) (by simpa [DSt.init] using hc.pos) hd0
+      simp only [List.nil_append] at h1
+      subst h1
+      refine ⟨body, ?_⟩
+      rw [← h3, ← hpre, List.take_append_drop]
+    · cases h
+
+/-- an altered stream that still carries the trailer of `encode c d` and is accepted decodes to data
+with the same hash chain as `d`: identical data, or a collision of the 64-bit hash -/
+theorem altered_accepted_only_on_hash_match (c : Cfg) (hc : c.Ok) (s d d' : List UInt8)
+    (h : decode c s = .ok d')
+    (hs : ∃ body, s = dataPrefix ++ (body ++ 0 :: leBytes 8 (chainHash c checkHashSeed d).toNat)) :
+    chainHash c checkHashSeed d' = chainHash c checkHashSeed d := by
+  obtain ⟨b1, h1⟩ := accepted_hash c hc s d' h
+  obtain ⟨b2, h2⟩ := hs
+  have e : (dataPrefix ++ b1 ++ [0]) ++ leBytes 8 (chainHash c checkHashSeed d').toNat
+      = (dataPrefix ++ b2 ++ [0]) ++ leBytes 8 (chainHash c checkHashSeed d).toNat := by
+    have := h1.symm.trans h2
+    simpa [List.append_assoc] using this
+  have e2 := List.append_inj_right' e (by simp)
+  have e3 := congrArg leVal e2
+  rw [leVal_leBytes_u64, leVal_leBytes_u64] at e3
+  exact UInt64.toNat_inj.mp e3
+
+/-- **Memory safety of the decoder model**: on *every* input — malformed, truncated, hostile — no
+bounds-checked accessor of the model fails: every byte written lies inside `buf[0..bufLen)`, every
+`ind2pos` entry written lies inside `ind2pos[0..bufLen)`, every `ind2pos` entry read was written
+while filling the current buffer, and every copied source range lies inside the bytes already
+decoded in the current buffer (so it is initialised and does not overlap the destination). -/
+theorem no_oob (c : Cfg) (s : List UInt8) : decode c s ≠ .error .oob := by
+  intro h
+  unfold decode at h
+  split at h
+  · rename_i e he
+    cases h
+    exact decChunks_no_oob c _ _ (Nat.le_refl _) _ _ _ (DInv.init c) he
+  · split at h <;> cases h
+
+/-- the Array-based decoder the driver runs (`Model/ReduceFast.lean`) is the decoder of the theorems -/
+theorem decode_fast_eq (c : Cfg) (s : List UInt8) : decodeF c s = decode c s := decodeF_eq c s
+
+/-! Non-vacuity: the hypotheses of the theorems above are satisfiable by non-trivial data. -/
+
+example : ∃ s d, d ≠ [] ∧ decode mirCfg s = .ok d :=
+  ⟨encode mirCfg [1, 2, 3, 4, 1, 2, 3, 4], [1, 2, 3, 4, 1, 2, 3, 4], by simp, roundtrip_mir _⟩
+
+example : ∃ buf : Array UInt8, buf.size ≠ 0 ∧ buf.size ≤ mirCfg.bufLen :=
+  ⟨#[1, 2, 3, 4, 1, 2, 3, 4], by decide, by decide⟩
+
+end MirVerif.Reduce
